@@ -1271,6 +1271,8 @@ impl TransactionalMemory {
     pub(crate) fn get_last_committed_transaction_id_and_data_root(
         &self,
     ) -> Result<(TransactionId, Option<BtreeHeader>)> {
+        #[cfg(redb_verif)]
+        crate::verif::pause("M.get_data_root");
         let state = self.state.lock()?;
         let slot = state.latest_slot();
         Ok((slot.transaction_id, slot.user_root))
